@@ -87,3 +87,17 @@ Definition adv_1pu_jwe2 (c : cfg) (a : kwalg) (m skidk apuk actual : N) (rcpts :
   let j1 := reenc_jwe (cek_of rn) m (set_prot (Some (p_set_apu (Some apu) (P (WJwe j0)))) j0) in
   let wk r := Wrap (kek_1pu a (dh (rn_eph rn) r) (dh actual r) apu (apv_1pu (map (kref_for st) rcpts)) (j_tag j1)) (cek_of rn) in
   set_recs (map (fun rr => mkrcp (r_hdr (fst rr)) (wk (snd rr))) (combine (j_recs j0) rcpts)) j1.
+
+(* ---------- member names in another letter case ----------
+   jose.Deserialize decodes the protected header into a MAP (lookups are case-sensitive: a member spelled "SKID" or
+   "Skid" is no skid for JWEDecrypt and the packers), while the packager's getEncodingType decodes the same bytes into
+   a struct with encoding/json, which matches member names case-INSENSITIVELY: such a member still routes the envelope
+   to the authcrypt packer.  [cv_skid] = the protected header has a member that is 'skid' up to letter case (and no
+   exactly spelled one). *)
+Definition dispatch_cv (cv_skid : bool) (w : wire) : option packer :=
+  match dispatch w with
+  | Some JweAnon => Some (if cv_skid then JweAuth else JweAnon)
+  | d => d
+  end.
+Definition unpack_pkgr_cv (cv_skid : bool) (v : variant) (party : list N) (w : wire) : res (term * option N * N) :=
+  match dispatch_cv cv_skid w with Some p => unpack v p party w | None => Err EInvalid end.
